@@ -188,7 +188,7 @@ INVOKE_DOC = ('<scxml xmlns="http://www.w3.org/2005/07/scxml" version="1.0" data
               '<state id="s0"><onentry><assign location="v" expr="%s"/></onentry><invoke type="scxml" id="c"%s>%s<content>'
               '<scxml xmlns="http://www.w3.org/2005/07/scxml" version="1.0" datamodel="lua" name="c16c"><datamodel><data id="v" expr="\'default\'"/></datamodel>'
               '<state id="c0"><onentry><send target="#_parent" event="back"><param name="p" expr="v"/></send></onentry></state></scxml>'
-              '</content></invoke><transition event="back" target="s1"><assign location="got" expr="_event.data.p"/></transition></state><state id="s1"/></scxml>')
+              '</content></invoke><transition event="back" target="s1"><assign location="got" expr="_event.data.p"/></transition></state><final id="s1"/></scxml>')
 
 
 def check_invoke_value(ctx, t, path):
